@@ -30,7 +30,7 @@ GLoad(p) ==
   IN /\ bin' = b2
      /\ stale' = (stale \/ (uB /\ (bin["B"].vers # Cur("B") \/ bin["B"].sver # bootS))
                         \/ (p = "A" /\ uA /\ (bin["A"].vers # Cur("A") \/ bin["A"].sver # bootS)))
-     /\ now' = now + 1 /\ UNCHANGED <<mtime, ver, bootS>>
+     /\ now' = now + 1 /\ UNCHANGED <<mtime, ver, bootS, saveB>>
      /\ Log([a |-> "load", p |-> p])
 
 FilesG == IF WithS THEN Files ELSE Files \ {"S"}
@@ -44,5 +44,5 @@ GNext ==
 GInit == Init /\ hist = <<>>
 GSpec == GInit /\ [][GNext]_gvars
 Useful == \E i \in 1..Len(hist) : hist[i].a = "load"
-Emit == (Len(hist) = MaxLen /\ hist[MaxLen].a = "load" /\ hist[1].a = "load") => PrintT(<<"@@B", ToJson(hist)>>)
+Emit == (Len(hist) = MaxLen /\ hist[MaxLen].a = "load" /\ hist[1].a = "load") => PrintT(<<"@@B", ToJson([saveB |-> saveB, h |-> hist])>>)
 =============================================================================
